@@ -129,7 +129,12 @@ func genRequestBody(t *rapid.T, mode string, depth, batch int) genReq {
 		case 2: // wrong JSON type in a numeric-string position
 			pos := numericPositions(m)
 			where := pos[rapid.IntRange(0, len(pos)-1).Draw(t, "where")]
-			setAt(d, where, json.RawMessage(pick(t, "wt", "5", "true", "[]", "{}", `["0x1"]`, "null")))
+			wt := pick(t, "wt", "5", "true", "[]", "{}", `["0x1"]`, "null")
+			setAt(d, where, json.RawMessage(wt))
+			if wt == "5" {
+				// a bare JSON integer IS a number: a decoder may take it for one (then the batch is judged as such) or refuse it
+				return genReq{Method: "POST", Body: marshalTree(d), Class: "bare-integer:" + stripIdx(where), Expect: "gray", Hash: m.InputHash}
+			}
 			return genReq{Method: "POST", Body: marshalTree(d), Class: "wrong-type:" + stripIdx(where), Expect: "malformed"}
 		case 3: // index out of range / ill-typed
 			what := pick(t, "idx", "-1", "4294967296", "1.5", `"3"`, "true", "[0]")
@@ -138,6 +143,10 @@ func genRequestBody(t *rapid.T, mode string, depth, batch int) genReq {
 			} else {
 				arr := d["deletionIndices"].([]any)
 				arr[rapid.IntRange(0, len(arr)-1).Draw(t, "i")] = json.RawMessage(what)
+			}
+			if what == `"3"` {
+				// an in-range index written as a string: the statement leaves open whether that is well-formed
+				return genReq{Method: "POST", Body: marshalTree(d), Class: "index-as-string", Expect: "gray", Hash: m.InputHash}
 			}
 			return genReq{Method: "POST", Body: marshalTree(d), Class: "bad-index", Expect: "malformed"}
 		case 4: // array replaced by a scalar
